@@ -2308,6 +2308,16 @@ if( found == 0 ) { /* child not found */
    CHECK_ADF_ABORT( *error_return ) ;
    } /* end if */
 
+    /** the new parent must not have a child of that name already **/
+ADFI_check_4_child_name( file_index, &new_parent, child_name, &found,
+                         &sub_node_entry_location, &sub_node_entry, error_return ) ;
+CHECK_ADF_ABORT( *error_return ) ;
+
+if( found == 1 ) {
+   *error_return = DUPLICATE_CHILD_NAME ;
+   CHECK_ADF_ABORT( *error_return ) ;
+   } /* end if */
+
     /** add child to its new parent's sub node table  **/
 ADFI_add_2_sub_node_table( file_index, &new_parent, &child, error_return ) ;
 CHECK_ADF_ABORT( *error_return ) ;
